@@ -92,6 +92,7 @@ type obs struct {
 type executor struct {
 	routers map[int]*mux.Router[*H]
 	facades map[int]*facadeSt
+	facadeRouter map[int]*mux.Router[*H]
 	hosts   map[int]*mux.Hosts
 	groups  map[int]*mux.Group[*H]
 	ctxs    map[int]*types.Context
@@ -103,7 +104,7 @@ type executor struct {
 
 func newExecutor() *executor {
 	return &executor{
-		routers: map[int]*mux.Router[*H]{}, facades: map[int]*facadeSt{}, hosts: map[int]*mux.Hosts{},
+		routers: map[int]*mux.Router[*H]{}, facades: map[int]*facadeSt{}, facadeRouter: map[int]*mux.Router[*H]{}, hosts: map[int]*mux.Hosts{},
 		groups: map[int]*mux.Group[*H]{}, ctxs: map[int]*types.Context{}, scripts: map[int][]act{},
 		pHandlers: map[int]int{}, pMws: map[int]int{}, pBases: map[int]int{},
 	}
@@ -321,6 +322,24 @@ func classify(v any) string {
 	return "reject:other"
 }
 
+// wrapperFor: which shorthand (Get/Post/Delete/Put/Patch/Any) stands for Handle with this method list; "" = none.
+// Odd handler ids use the shorthand, even ones the general call, so both are exercised on the same inputs.
+func wrapperFor(hid int, methods []string) string {
+	if hid%2 == 0 {
+		return ""
+	}
+	if len(methods) == 0 {
+		return "ANY"
+	}
+	if len(methods) == 1 {
+		switch methods[0] {
+		case "GET", "POST", "DELETE", "PUT", "PATCH":
+			return methods[0]
+		}
+	}
+	return ""
+}
+
 func protect(f func() string) (out string) {
 	defer func() {
 		if v := recover(); v != nil {
@@ -350,7 +369,15 @@ func (x *executor) routerOpts(trace, lock, recover, domain, icpt, corsFlag, orig
 	}
 	if corsFlag == "1" {
 		ma, _ := strconv.Atoi(maxAge)
-		o = append(o, mux.WithCORS(decL(origins), decL(allowH), decL(exposed), ma, cred == "1"))
+		or, ah, ex := decL(origins), decL(allowH), decL(exposed)
+		switch {
+		case len(or) == 0 && len(ah) == 0 && len(ex) == 0 && ma == 0 && cred != "1":
+			o = append(o, mux.WithDenyCORS())
+		case len(or) == 1 && or[0] == "*" && len(ah) == 1 && ah[0] == "*" && len(ex) == 0 && cred != "1":
+			o = append(o, mux.WithAllowedCORS(ma))
+		default:
+			o = append(o, mux.WithCORS(or, ah, ex, ma, cred == "1"))
+		}
 	}
 	return o
 }
@@ -483,6 +510,16 @@ func (x *executor) parseMatcher(s string) mux.Matcher {
 				ms = append(ms, m)
 			}
 		}
+		if len(ms)%2 == 1 { // odd arity: the ...Func variants (= the same combinators over MatcherFunc values)
+			fs := make([]func(*http.Request, *types.Context) bool, len(ms))
+			for i, m := range ms {
+				fs[i] = m.Match
+			}
+			if s[0] == 'a' {
+				return mux.AndMatcherFunc(fs...)
+			}
+			return mux.OrMatcherFunc(fs...)
+		}
 		if s[0] == 'a' {
 			return mux.AndMatcher(ms...)
 		}
@@ -522,7 +559,24 @@ func (x *executor) step(line string) string {
 		}
 		hid := atoi(t[3])
 		return protect(func() string {
-			r.Handle(decB(t[2]), &H{base: "user:" + t[3], hid: hid}, mwsOf(decNatList(t[4])), decL(t[5])...)
+			pat, h, ms, methods := decB(t[2]), &H{base: "user:" + t[3], hid: hid}, mwsOf(decNatList(t[4])), decL(t[5])
+			// every other registration goes through the shorthand methods when one applies (Get/Post/.../Any = Handle)
+			switch w := wrapperFor(hid, methods); w {
+			case "GET":
+				r.Get(pat, h, ms...)
+			case "POST":
+				r.Post(pat, h, ms...)
+			case "DELETE":
+				r.Delete(pat, h, ms...)
+			case "PUT":
+				r.Put(pat, h, ms...)
+			case "PATCH":
+				r.Patch(pat, h, ms...)
+			case "ANY":
+				r.Any(pat, h, ms...)
+			default:
+				r.Handle(pat, h, ms, methods...)
+			}
 			return "ok"
 		})
 	case t[0] == "remove" && len(t) == 4:
@@ -600,6 +654,7 @@ func (x *executor) step(line string) string {
 			fs.prefix = r.Prefix(decB(t[5]), ms...)
 		}
 		x.facades[fid] = fs
+		x.facadeRouter[fid] = r
 		return "ok"
 	case t[0] == "fhandle" && len(t) == 6:
 		fs := x.facades[atoi(t[1])]
@@ -609,10 +664,49 @@ func (x *executor) step(line string) string {
 		hid := atoi(t[3])
 		h := &H{base: "user:" + t[3], hid: hid}
 		return protect(func() string {
+			ms, methods := mwsOf(decNatList(t[4])), decL(t[5])
+			w := wrapperFor(hid, methods)
 			if fs.isResource {
-				fs.resource.Handle(h, mwsOf(decNatList(t[4])), decL(t[5])...)
+				if fs.resource.Router() != x.facadeRouter[atoi(t[1])] {
+					return "facade-router-mismatch"
+				}
+				switch w {
+				case "GET":
+					fs.resource.Get(h, ms...)
+				case "POST":
+					fs.resource.Post(h, ms...)
+				case "DELETE":
+					fs.resource.Delete(h, ms...)
+				case "PUT":
+					fs.resource.Put(h, ms...)
+				case "PATCH":
+					fs.resource.Patch(h, ms...)
+				case "ANY":
+					fs.resource.Any(h, ms...)
+				default:
+					fs.resource.Handle(h, ms, methods...)
+				}
 			} else {
-				fs.prefix.Handle(decB(t[2]), h, mwsOf(decNatList(t[4])), decL(t[5])...)
+				if fs.prefix.Router() != x.facadeRouter[atoi(t[1])] {
+					return "facade-router-mismatch"
+				}
+				pat := decB(t[2])
+				switch w {
+				case "GET":
+					fs.prefix.Get(pat, h, ms...)
+				case "POST":
+					fs.prefix.Post(pat, h, ms...)
+				case "DELETE":
+					fs.prefix.Delete(pat, h, ms...)
+				case "PUT":
+					fs.prefix.Put(pat, h, ms...)
+				case "PATCH":
+					fs.prefix.Patch(pat, h, ms...)
+				case "ANY":
+					fs.prefix.Any(pat, h, ms...)
+				default:
+					fs.prefix.Handle(pat, h, ms, methods...)
+				}
 			}
 			return "ok"
 		})
@@ -742,6 +836,39 @@ func (x *executor) step(line string) string {
 			names = append(names, r.Name())
 		}
 		return "names " + encL(names)
+	case t[0] == "group-routes" && len(t) == 2:
+		g := x.groups[atoi(t[1])]
+		if g == nil {
+			return "bad-op"
+		}
+		return protect(func() string {
+			m := g.Routes()
+			names := make([]string, 0, len(m))
+			for k := range m {
+				names = append(names, k)
+			}
+			sort.Strings(names)
+			out := make([]string, len(names))
+			for i, k := range names {
+				out[i] = encB(k) + "{" + fmtRoutes(m[k]) + "}"
+			}
+			sort.Strings(out)
+			return "groutes " + strings.Join(out, ";")
+		})
+	case t[0] == "group-router" && len(t) == 3:
+		g := x.groups[atoi(t[1])]
+		if g == nil {
+			return "bad-op"
+		}
+		return protect(func() string {
+			r := g.Router(decB(t[2]))
+			if r == nil {
+				return "grouter %!"
+			}
+			return "grouter " + encB(r.Name()) + " " + fmtRoutes(r.Routes())
+		})
+	case t[0] == "methods" && len(t) == 1:
+		return "methods " + encL(mux.Methods()) + " any " + encL(mux.AnyMethods())
 	case t[0] == "gserve" && len(t) == 7:
 		g := x.groups[atoi(t[1])]
 		if g == nil {
